@@ -211,8 +211,8 @@ func (o *OracleC05) AfterCall(n *Node, st *Step) {
 	// by the time elapsed since the proposal of the IMMEDIATELY preceding height was handled.
 	// If this incarnation never held a proposal of height h-1, the first timer armed for
 	// (h, view 0) must be the full one of the dBFT timeout ladder: T for the primary,
-	// 2T for a backup.  (Block index 1 is exempt, see O1.)
-	if d.BlockIndex > 1 && d.MyIndex >= 0 && !n.flagWO {
+	// 2T for a backup.
+	if d.MyIndex >= 0 && !n.flagWO {
 		seen := false
 		for k := range n.facts.proposals {
 			if k.h == d.BlockIndex-1 {
@@ -245,7 +245,7 @@ func (o *OracleC05) AfterCall(n *Node, st *Step) {
 	// the timer armed by an initialisation never exceeds the full one (T primary, 2T backup).
 	// (Not judged in runs with clock steps: a backward step between the previous proposal and
 	// the Reset makes the elapsed time negative and the library adds it - observation O9.)
-	if d.BlockIndex > 1 && d.MyIndex >= 0 && !n.flagWO && d.ViewNumber == 0 && !s.sc.ClockJumps {
+	if d.MyIndex >= 0 && !n.flagWO && d.ViewNumber == 0 && !s.sc.ClockJumps {
 		var last *Out
 		for i := range st.Outs {
 			if st.Outs[i].Kind == OTimerReset {
